@@ -72,8 +72,31 @@ if exe:
     dstreams = [('real-%s' % nm, bz2.compress(d, 1), d) for nm, d, _ in I
                 if len(d) > 1000]
     dstreams += [(nm, d, p) for nm, d, p, _ in S.planted_streams(rng, True)]
+    # many small blocks exercising every decoder path at once in several
+    # workers (randomised blocks, 2..6 tables, deep codes, several streams of
+    # different levels): shared scratch state inside the block decoder shows
+    # only when two blocks of the same kind are decoded concurrently
+    import bzformat as B
+    for feat in ('randomised', 'tables', 'mixed'):
+        w = B.BitWriter()
+        plain = b''
+        for st in range(2):
+            blocks = []
+            for k in range(6):
+                p_ = bytes(rng.randrange(97, 97 + rng.choice([2, 5, 26]))
+                           for _ in range(rng.randrange(200, 2500)))
+                knobs = {'ntables': rng.randint(2, 6)}
+                if feat == 'randomised' or (feat == 'mixed' and k % 2):
+                    knobs['rand'] = True
+                if feat != 'randomised' and k % 3 == 0:
+                    knobs['random_tables'] = True
+                    knobs['deep'] = True
+                blocks.append((p_, knobs))
+                plain += p_
+            B.make_stream(w, blocks, rng.choice([1, 5, 9]), rng)
+        dstreams.append(('features-' + feat, w.bytes(), plain))
     for name, c, plain in dstreams:
-        for _ in range(reps):
+        for _ in range(reps * 6 if name.startswith('features-') else reps):
             env = dict(env0)
             env.update(S.config_env(rng, big=len(plain) > 50000))
             env.pop('LBZIP2_VERIF_CHECK', None)
